@@ -11,10 +11,70 @@ RULE = ("the extracted Coq predicate layoutb_with (the one theorem C04_wf_implie
         "arrays are also compared cell by cell with the L1 model state; non-trivial = an operation followed by a "
         "check, distinct by SHA-256 of the JSON history")
 
-OTHERS = ['gen_c06', 'gen_c07', 'gen_c08', 'gen_c09', 'gen_c09', 'gen_c11', 'gen_c12', 'gen_c15', 'gen_c02']
+OTHERS = ['gen_c06', 'gen_c07', 'gen_c08', 'gen_c09', 'gen_c09', 'gen_c11', 'gen_c12', 'gen_c15', 'gen_c02', 'gen_c19', 'gen_c19']
+
+
+def gen_bool_true_sentinel(rng):
+    """a boolean map whose sentinel is True (False is then the valid value), through the constant operators"""
+    cfg = rng.choice([(1, 4), (2, 4), (2, 8)])
+    npix = 12 * cfg[1] ** 2
+    h = [dict(op='mk', h=0, kind='plain', nc=cfg[0], ns=cfg[1], dtype='b', sentinel=True, cov_pixels=None),
+         dict(op='upd', h=0, form='pix', operation='replace', expect='ok',
+              pixels=rng.sample(range(npix), rng.randint(1, 8)), values=False, single=True, pyscalar=True),
+         dict(op='check', h=0, what=['raw', 'layout', 'cov'])]
+    nxt = 1
+    for _ in range(rng.randint(1, 3)):
+        inplace = rng.random() < 0.4
+        fn = rng.choice(['and', 'or', 'xor', 'invert'])
+        st = dict(op='bconst', h=0, out=0 if inplace else nxt, fn=fn, inplace=inplace)
+        if fn != 'invert':
+            st['const'] = rng.random() < 0.5
+        h.append(st)
+        h.append(dict(op='check', h=st['out'], what=['raw', 'layout', 'cov'], l1only=True))
+        if not inplace:
+            nxt += 1
+    return h
+
+
+def gen_rdeg_subset(rng):
+    """degrade-on-read of a proper subset of the covered coverage pixels (every reduction family): the map
+    returned must have one block per coverage pixel read"""
+    cfg = rng.choice([(1, 4), (2, 4), (2, 8), (4, 8)])
+    ncov = 12 * cfg[0] ** 2
+    nfine = (cfg[1] // cfg[0]) ** 2
+    kind = rng.choice(['int0', 'int0', 'float', 'wide'])
+    if kind == 'int0':
+        mk = gens2.mk_plain(rng, 0, cfg, rng.choice(['i2', 'i4', 'u2', 'u1']), sentinel=0)
+        reds = ['or', 'and', 'max']
+        val = lambda: rng.randint(1, 15)      # noqa
+    elif kind == 'float':
+        mk = gens2.mk_plain(rng, 0, cfg, rng.choice(['f4', 'f8']), sentinel=None)
+        reds = ['mean', 'max', 'sum']
+        val = lambda: rng.randint(-16, 16) / 4.0      # noqa
+    else:
+        mk = dict(op='mk', h=0, kind='wide', nc=cfg[0], ns=cfg[1], maxbits=rng.choice([3, 9]), sentinel=None, cov_pixels=None)
+        reds = ['or', 'and']
+        val = lambda: rng.randint(1, 7)      # noqa
+    covs = rng.sample(range(ncov), min(ncov, rng.randint(2, 4)))
+    pix = sorted(set(c * nfine + rng.randrange(nfine) for c in covs for _ in range(rng.randint(1, 4))))
+    h = [mk, dict(op='upd', h=0, form='pix', operation='replace', expect='ok', pixels=pix, values=[val() for _ in pix], single=False)]
+    sub = rng.sample(covs, rng.randint(1, len(covs) - 1))
+    if rng.random() < 0.4:
+        sub.append(rng.choice([c for c in range(ncov) if c not in covs] or [covs[0]]))
+    outs = [n for n in (1, 2, 4) if cfg[0] <= n < cfg[1]]
+    h.append(dict(op='rdeg', h=0, out=10, out2=11, nside_out=rng.choice(outs), reduction=rng.choice(reds),
+                  pixels=sorted(set(sub)), hw=None, compress=rng.random() < 0.5))
+    h.append(dict(op='ifexists', h=10))
+    h.append(dict(op='check', h=10, what=['raw', 'layout', 'cov'], l1only=True))
+    return h
 
 
 def gen(rng):
+    r0 = rng.random()
+    if r0 < 0.08:
+        return gen_bool_true_sentinel(rng)
+    if r0 < 0.16:
+        return gen_rdeg_subset(rng)
     if rng.random() < 0.5:
         h = getattr(gens2, rng.choice(OTHERS))(rng)
         for st in h:
@@ -25,6 +85,13 @@ def gen(rng):
                 st['l1only'] = True
         return [st for st in h if st['op'] not in ('sameas', 'unchanged', 'chkbits', 'sameas_if')]
     h = gens.gen_c01_history(rng, max_steps=8)
+    if rng.random() < 0.1:
+        # a pre-allocation list naming a coverage pixel twice: rejected, or a map that still obeys the layout
+        nc_ = rng.choice([1, 2, 4])
+        cp_ = [rng.randrange(12 * nc_ * nc_) for _ in range(rng.randint(1, 3))]
+        cp_.insert(rng.randint(0, len(cp_)), rng.choice(cp_))
+        h.append(dict(op='mkdup', nc=nc_, ns=nc_ * rng.choice([1, 2, 4]), dtype=rng.choice(['f4', 'f8', 'i4', 'b']),
+                      cov_pixels=cp_))
     if rng.random() < 0.25:
         # the map read back from a file (its arrays do not own their memory), then grown twice
         mk = h[0]
